@@ -60,6 +60,7 @@ func VerifyIndex(ctx context.Context, name string, idx Index, n int, pb Progress
 	batch := chunksNum / (n * 10)
 
 	// Feed the workers, stop if there are any errors
+	var feedErr error
 loop:
 	for i := 0; i < chunksNum; i = i + batch + 1 {
 		last := i + batch
@@ -69,11 +70,17 @@ loop:
 		}
 		select {
 		case <-ctx.Done():
+			// Either a worker failed (its error is returned below) or the
+			// operation was cancelled before all chunks were handed out
+			feedErr = Interrupted{}
 			break loop
 		case in <- idx.Chunks[i : last+1]:
 		}
 	}
 	close(in)
 
-	return g.Wait()
+	if err := g.Wait(); err != nil {
+		return err
+	}
+	return feedErr
 }
